@@ -60,6 +60,8 @@ class FnRecord:
     contracted: bool = False
     callees: list = field(default_factory=list)   # names in call position in the SOURCE text of the item
     n_closures: int = 0                            # closure expressions in the SOURCE text of the item
+    skeleton: str = ''                             # control skeleton of the SOURCE text of the item
+    aid_ctx: dict = field(default_factory=dict)    # where each position-bound proof aid sits (enclosing block kinds) / what it relies on (exits)
 
 
 KW_NOCALL = {'if', 'while', 'match', 'for', 'return', 'loop', 'fn', 'in', 'as', 'let', 'else', 'move', 'unsafe', 'where', 'impl', 'mut', 'ref',
@@ -92,6 +94,96 @@ def shape_of(toks, lo, hi):
                 i = j
         i += 1
     return sorted(callees), closures
+
+
+CTRL_KW = {'if', 'else', 'match', 'for', 'while', 'loop', 'return', 'continue', 'break'}
+
+
+def block_kind(toks, i, lo):
+    """what introduces the block opened by the `{` token i: if / else / match / for / while / loop / arm / closure / block"""
+    j = i - 1
+    while j > lo:
+        t = toks[j]
+        if t.kind in ('ws', 'comment'):
+            j -= 1
+            continue
+        if t.kind == 'ident' and t.text in ('if', 'else', 'match', 'for', 'while', 'loop'):
+            return t.text
+        if t.kind == 'punct':
+            if t.text == '>' and j - 1 > lo and toks[j - 1].text == '=':
+                return 'arm'
+            if t.text == '|':
+                return 'closure'
+            if t.text in (';', '{', '}'):
+                return 'block'
+        j -= 1
+    return 'block'
+
+
+def control_context(toks, br, body, loops):
+    """walk the body once: for every token index the stack of enclosing block kinds; per loop (by its body brace) the number of `continue` and
+    `break` statements that leave an iteration of THAT loop; the number of function-level `return`s and `?` exits (outside closures)"""
+    stack = []          # (kind, brace index)
+    path_at = {}
+    label_of = {}
+    for n, L in enumerate(loops):
+        # label: `'name :` before the loop keyword
+        j = L['kw'] - 1
+        while j > body and toks[j].kind in ('ws', 'comment'):
+            j -= 1
+        if j > body and toks[j].text == ':':
+            k = j - 1
+            while k > body and toks[k].kind in ('ws', 'comment'):
+                k -= 1
+            if toks[k].kind == 'lifetime':
+                label_of[toks[k].text] = L['body']
+    loop_bodies = {L['body']: n for n, L in enumerate(loops)}
+    conts = {n: 0 for n in range(len(loops))}
+    breaks = {n: 0 for n in range(len(loops))}
+    returns = 0
+    end = br[body]
+    i = body + 1
+    while i < end:
+        t = toks[i]
+        if t.kind == 'punct' and t.text == '{' and i in br:
+            stack.append((block_kind(toks, i, body), i))
+        elif t.kind == 'punct' and t.text == '}' and stack and br.get(stack[-1][1]) == i:
+            stack.pop()
+        path_at[i] = '/'.join(k for k, _ in stack)
+        in_closure = any(k == 'closure' for k, _ in stack)
+        if t.kind == 'ident' and t.text in ('continue', 'break'):
+            j = i + 1
+            while j < end and toks[j].kind in ('ws', 'comment'):
+                j += 1
+            target = None
+            if toks[j].kind == 'lifetime':
+                target = label_of.get(toks[j].text)
+            else:
+                for k, bi in reversed(stack):
+                    if bi in loop_bodies:
+                        target = bi
+                        break
+            if target is not None and target in loop_bodies:
+                (conts if t.text == 'continue' else breaks)[loop_bodies[target]] += 1
+        elif not in_closure and ((t.kind == 'ident' and t.text == 'return') or (t.kind == 'punct' and t.text == '?')):
+            returns += 1
+        i += 1
+    return path_at, conts, breaks, returns
+
+
+def skeleton_of(toks, lo, hi):
+    """control skeleton of the source tokens toks[lo:hi]: the control keywords, `?` exits and block braces in order -- what position-bound proof
+    steps (hints placed before/after a statement, at a loop's end, at the function's exit) implicitly rely on"""
+    out = []
+    sig = [t for t in toks[lo:hi] if t.kind not in ('ws', 'comment')]
+    for i, t in enumerate(sig):
+        if t.kind == 'ident' and t.text in CTRL_KW:
+            out.append(t.text)
+        elif t.kind == 'punct' and t.text in '{}':
+            out.append(t.text)
+        elif t.kind == 'punct' and t.text == '?':
+            out.append('?')
+    return ' '.join(out)
 
 
 class SrcCache:
@@ -268,6 +360,7 @@ class Unit:
         rec = FnRecord(self.name, rel, selector, item.name, cmd, hashlib.sha256(verbatim.encode()).hexdigest(),
                        src.line_of(toks[item.kw].start), [])
         rec.callees, rec.n_closures = shape_of(toks, item.start, item.end)
+        rec.skeleton = skeleton_of(toks, item.start, item.end)
         edits = []
         local_counts = {}
 
@@ -828,6 +921,18 @@ class Unit:
                 loops.append({'kind': t.text, 'kw': j, 'body': b, 'in': in_tok})
             j += 1
         rec.loops = [l['kind'] for l in loops]
+        # where the position-bound proof aids of this function sit (for the displaced-aid rule of check.py; recorded in baseline_shapes.json)
+        path_at, n_conts, n_breaks, n_returns = control_context(toks, br, body, loops)
+        starts = [t.start for t in toks]
+
+        def path_of(off):
+            import bisect
+            k = bisect.bisect_left(starts, off) - 1
+            while k > body and k not in path_at:
+                k -= 1
+            return path_at.get(k, '')
+        self._path_of = path_of
+        self._exits = (n_conts, n_breaks, n_returns)
         # `opt optloop:N`: loop N exists only in some shapes of the function (e.g. after a repair). When the function has no loop N its
         # loop clauses, loop hints and r5/r6 options are dropped and recorded (proof aids only: nothing is assumed by dropping them).
         for o in list(opts):
@@ -1007,6 +1112,7 @@ class Unit:
                         edits.append(Edit(endoff, endoff, '; ' + c[1] + ' vf_ret', ('spec', tplpath, c[2], c[3]), prio=6))
                         cnt('R12-bind-tail')
                 rec.n_hints += 1
+                rec.aid_ctx['exit: early exits'] = self._exits[2]
             if c[0] in ('loopbefore', 'loophead', 'looptail', 'loopend'):
                 mm = re.match(r'(\d+)\s*:\s*(.*)$', c[1], re.S)
                 if not mm:
@@ -1028,6 +1134,7 @@ class Unit:
                 elif c[0] == 'looptail':
                     off = toks[br[L['body']]].start
                     edits.append(Edit(off, off, ' ' + mm.group(2) + ' ', ('spec', tplpath, c[2], c[3]), prio=4))
+                    rec.aid_ctx['looptail %d: continue' % n] = self._exits[0].get(n, 0)
                 elif c[0] == 'loophead':
                     off = toks[L['body']].end
                     edits.append(Edit(off, off, ' ' + mm.group(2) + ' ', ('spec', tplpath, c[2], c[3]), prio=4))
@@ -1052,6 +1159,7 @@ class Unit:
                             txt = mm.group(3)
                             edits.append(Edit(off, off, (' ' + txt + ' ') if c[0] == 'after' else (txt + ' '), ('spec', tplpath, c[2], c[3]), prio=3))
                         rec.n_hints += 1
+                        rec.aid_ctx['%s `%s`#*' % (c[0], mm.group(1))] = ' | '.join(sorted(set(self._path_of(body_lo + h1.start() + 1) for h1 in hits)))
                         continue
                 elif mm.group(2) == '$':
                     # `#$`: the LAST occurrence (an earlier occurrence may come and go with the code shape)
@@ -1067,6 +1175,7 @@ class Unit:
                 txt = mm.group(3)
                 edits.append(Edit(off, off, (' ' + txt + ' ') if c[0] == 'after' else (txt + ' '), ('spec', tplpath, c[2], c[3]), prio=3))
                 rec.n_hints += 1
+                rec.aid_ctx['%s `%s`%s' % (c[0], mm.group(1), ('#' + mm.group(2)) if mm.group(2) else '')] = self._path_of(body_lo + hits[0].start() + 1)
         # entry hint: `note` unused; body head ghost text via "after `{`"? -> use special anchor ENTRY
         if self.mode == 'vacuity' and 'external_body' not in opts:
             edits.append(Edit(toks[body].end, toks[body].end, ' assert(false); /*VACUITY*/', ('vacuity', rec.selector), prio=-1))
